@@ -79,7 +79,9 @@ Section Cands.
   (* mod_bow at a byte offset on a character boundary = can_bow of that character *)
   Definition bow_at (byte : nat) : bool := nth (nth byte (mod_b2c cfg tb) 0) (O.can_bow classes) false.
 
-  Definition dict_ids (p : nat) : list (N * nat) := dict_entries cfg (tk_lexs tk) bow_at tb p.
+  (* the loop of build_lattice visits the character positions 0 .. n-1 only *)
+  Definition dict_ids (p : nat) : list (N * nat) :=
+    if p <? length t then dict_entries cfg (tk_lexs tk) bow_at tb p else [].
   Definition dict_onodes (p : nat) : list O.node :=
     map (fun wc => let '(l, r, c) := tk_params tk (fst wc) in O.mkNode p (snd wc) l r c 0%N) (dict_ids p).
 
@@ -174,16 +176,16 @@ Fixpoint report_all (cfg : bcfg) (s : buf) (ns : list Sp.node) : option (list mo
   end.
 
 (* ------------------------------------------------------------------ the stages after the input-text plugins *)
-Record analysis := mkAn {
-  an_buf : buf; an_text : list N;                       (* buffer and rewritten text *)
-  an_lattice : lattice; an_eos : nat * nat * Z;         (* lattice and (row, index, cost) of the EOS predecessor *)
-  an_path : list (node * N);                            (* best path with word ids *)
-  an_result : list Rw.node;                             (* ResultNodes of the best path *)
-  an_rewritten : list Rw.node;                          (* after the path-rewrite plugins *)
-  an_split_in : list Sp.node; an_final : list Sp.node   (* before / after split_path *)
+(* everything up to the input of split_path *)
+Record presplit := mkPre {
+  pr_lattice : lattice; pr_eos : nat * nat * Z;         (* lattice and (row, index, cost) of the EOS predecessor *)
+  pr_path : list (node * N);                            (* best path with word ids *)
+  pr_result : list Rw.node;                             (* ResultNodes of the best path *)
+  pr_rewritten : list Rw.node;                          (* after the path-rewrite plugins *)
+  pr_split_in : list Sp.node                            (* ... as split_path sees them *)
 }.
 
-Definition analyse (cfg : bcfg) (tk : tokenizer) (s : buf) (t : list N) : res analysis :=
+Definition pre_split (cfg : bcfg) (tk : tokenizer) (t : list N) : res presplit :=
   let n := length t in
   match loop_ids cfg tk t (reset n) [] 0 n with
   | None => Err                                          (* EosBosDisconnect *)
@@ -194,23 +196,29 @@ Definition analyse (cfg : bcfg) (tk : tokenizer) (s : buf) (t : list N) : res an
       match walk_pos L (length L) (r, i) with
       | None => Panic
       | Some rps =>
-        let ps := rev rps in
         let path := flat_map (fun p => match get L p with
                                        | Some e => match enode e with Some nd => [(nd, wid_at ids p)] | None => [] end
-                                       | None => [] end) ps in
+                                       | None => [] end) (rev rps) in
         let result := map (fun x => result_node tk t (fst x) (snd x)) path in
         match Rw.run_plugins (tk_rewrite tk) result with
         | Some (Rw.Ok q) =>
-            let before := combine result (map snd path) in
-            let sin := map (split_node_of before) q in
-            match Sp.tokenize_mode (tk_hw tk) t (tk_ua tk) (tk_ub tk) (tk_mode tk) sin with
-            | Some final => Ok (mkAn s t L (r, i, c) path result q sin final)
-            | None => Panic
-            end
+            Ok (mkPre L (r, i, c) path result q (map (split_node_of (combine result (map snd path))) q))
         | _ => Panic
         end
       end
     end
+  end.
+
+Record analysis := mkAn { an_buf : buf; an_text : list N; an_pre : presplit; an_final : list Sp.node }.
+
+Definition analyse (cfg : bcfg) (tk : tokenizer) (s : buf) (t : list N) : res analysis :=
+  match pre_split cfg tk t with
+  | Ok a => match Sp.tokenize_mode (tk_hw tk) t (tk_ua tk) (tk_ub tk) (tk_mode tk) (pr_split_in a) with
+            | Some final => Ok (mkAn s t a final)
+            | None => Panic
+            end
+  | Err => Err
+  | Panic => Panic
   end.
 
 (* StatefulTokenizer::do_tokenize + MorphemeList: Ok [] for a text whose normalised form is empty *)
